@@ -8,6 +8,8 @@ followed by `rest` appends `x` to the section list of the document and leaves `r
 -/
 import Acme.Proofs.DbcBasic
 
+set_option linter.unusedSimpArgs false
+
 namespace Acme.Dbc
 
 theorem step_valueTable (hex : Bool) (fl : PFlags) (ast : File) (vt : ValueTable)
